@@ -276,11 +276,16 @@ def run_conf(w, profs, name):
             r = run_tlc("%s-%s-%d" % (name, p, b[2]), TRACE, "TraceConf", "TraceConf_%s.cfg" % p,
                         env={"TRACE_FILE": b[0], "INDEX_FILE": b[1]}, timeout=3000, xmx="8g" if len(bl) == 1 else "5g", workers=workers)
             if not r["ok"]:
-                tlc_failed(r, "TraceConf " + p)
+                # conformance only produces NOTEs: a behaviour the specification's operators cannot even evaluate (it happens
+                # with changed sources) must not stand in the way of the verdict, which comes from the property automaton
+                print("NOTE conformance run for profile %s did not complete (rc=%s): %s" % (p, r["rc"], tlc_error_text(r).splitlines()[0][:200] if tlc_error_text(r) else ""))
+                r["failed"] = True
             return r
         rs = run_batches(bl, one)
         for (bp, ip, off, cnt), r in zip(bl, rs):
             seen = set()
+            if r.get("failed"):
+                div.append((p, off + 1, 0, "-", "tlc-error"))
             for v in verdict_lines(r["out"], ("ACCEPT", "REJECT")):
                 if v[1] in seen:
                     continue
